@@ -10,6 +10,7 @@ pub mod c05;
 pub mod c06;
 pub mod c06_shell;
 pub mod c07;
+pub mod c08;
 pub mod c09;
 pub mod c10;
 pub mod c11;
@@ -18,6 +19,7 @@ pub mod c13;
 pub mod c14;
 pub mod c15;
 pub mod decide;
+pub mod faultsim;
 pub mod c16;
 pub mod c17;
 
@@ -29,6 +31,7 @@ pub fn run(ctx: &Ctx) -> Option<&'static str> {
         "C03" => Some(c03::run(ctx)),
         "C04" => Some(c04::run(ctx)),
         "C07" => Some(c07::run(ctx)),
+        "C08" => Some(c08::run(ctx)),
         "C09" => Some(c09::run(ctx)),
         "C10" => Some(c10::run(ctx)),
         "C11" => Some(c11::run(ctx)),
